@@ -136,6 +136,15 @@ type fakeDA struct {
 	// sameHeight (concurrent part only): a submission lands on the current height and is visible to GetIDs at once,
 	// so that what a retrieval returns depends on the order in which the DA saw the calls.
 	sameHeight bool
+	// lim (large-payload part only): the DA's blob size limit; 0 = the tiny `limit` of the other parts
+	lim uint64
+}
+
+func (d *fakeDA) maxSize() uint64 {
+	if d.lim != 0 {
+		return d.lim
+	}
+	return limit
 }
 
 func newFakeDA() *fakeDA {
@@ -256,10 +265,10 @@ func (d *fakeDA) SubmitWithOptions(ctx context.Context, blobs []coreda.Blob, _ f
 	n := 0
 	var size uint64
 	for _, b := range blobs {
-		if uint64(len(b)) > limit {
+		if uint64(len(b)) > d.maxSize() {
 			return nil, coreda.ErrBlobSizeOverLimit
 		}
-		if size+uint64(len(b)) > limit {
+		if size+uint64(len(b)) > d.maxSize() {
 			break
 		}
 		size += uint64(len(b))
@@ -348,7 +357,10 @@ type rig struct {
 	cli    *proxy.Client
 }
 
-func newRig(kind string) (*rig, error) {
+func newRig(kind string) (*rig, error) { return newRigWith(kind, limit) }
+
+// newRigWith: clientLimit 0 leaves the client's MaxBlobSize as proxy.NewClient set it (the large-payload part).
+func newRigWith(kind string, clientLimit uint64) (*rig, error) {
 	g := &rig{kind: kind, direct: &swapDA{}, behind: &swapDA{}}
 	g.reset("empty")
 	g.srv = proxy.NewServer(logger, "127.0.0.1", "0", g.behind)
@@ -364,7 +376,9 @@ func newRig(kind string) (*rig, error) {
 	if err != nil {
 		return nil, fmt.Errorf("client: %w", err)
 	}
-	cli.DA.MaxBlobSize = limit
+	if clientLimit != 0 {
+		cli.DA.MaxBlobSize = clientLimit
+	}
 	g.cli = cli
 	if _, err := cli.DA.GasPrice(context.Background()); err != nil {
 		return nil, fmt.Errorf("warm-up call through the proxy failed: %w", err)
@@ -466,6 +480,7 @@ type replay struct {
 	Pre     string      `json:"pre,omitempty"`
 	Actions []action    `json:"actions,omitempty"`
 	Conc    *concReplay `json:"concurrent,omitempty"` // set: a history of the concurrent part (concurrent_test.go)
+	Large   *largeCase  `json:"large_payload,omitempty"` // set: a case of the large-payload part (large_test.go)
 }
 
 func sizeLists(maxLen int) [][]int {
